@@ -39,6 +39,9 @@ pub struct Case {
     pub sched: Vec<u16>,
     /// also present a replication list from a stranger / from the node itself
     pub stranger: bool,
+    /// also present a list from a peer that is in the routing table but not among the K closest
+    #[serde(default)]
+    pub far_known: bool,
 }
 
 fn content_strategy() -> impl Strategy<Value = NodeContent> {
@@ -47,8 +50,8 @@ fn content_strategy() -> impl Strategy<Value = NodeContent> {
 }
 
 fn case_strategy() -> BoxedStrategy<Case> {
-    (proptest::collection::vec(content_strategy(), 2..=3), 2u8..=4, proptest::collection::vec(any::<u16>(), 0..60), prop_oneof![3 => Just(false), 1 => Just(true)])
-        .prop_map(|(nodes, rounds, sched, stranger)| Case { nodes, rounds, sched, stranger })
+    (proptest::collection::vec(content_strategy(), 2..=3), 2u8..=4, proptest::collection::vec(any::<u16>(), 0..60), prop_oneof![3 => Just(false), 1 => Just(true)], prop_oneof![5 => Just(false), 1 => Just(true)])
+        .prop_map(|(nodes, rounds, sched, stranger, far_known)| Case { nodes, rounds, sched, stranger, far_known })
         .boxed()
 }
 
@@ -133,6 +136,69 @@ fn check(case: &Case, ctx: &mut Ctx) {
             }
             cl.settle();
         }
+    }
+
+    // ---- a list from a peer the node knows, but which is not among its K closest -----------------
+    if case.far_known {
+        use sha2::{Digest, Sha256};
+        let me = cl.nodes[0].peer;
+        let dist = |p: &libp2p::PeerId| -> [u8; 32] {
+            let a: [u8; 32] = Sha256::digest(me.to_bytes()).into();
+            let b: [u8; 32] = Sha256::digest(p.to_bytes()).into();
+            let mut x = [0u8; 32];
+            for i in 0..32 {
+                x[i] = a[i] ^ b[i];
+            }
+            x
+        };
+        let mut inserted: Vec<libp2p::PeerId> = vec![];
+        for i in 0..28u64 {
+            let p = fix::peer(400 + i);
+            if cl.add_peer(0, p) {
+                inserted.push(p);
+            }
+        }
+        // the other cluster nodes are known as well
+        let mut all: Vec<libp2p::PeerId> = inserted.clone();
+        all.extend(cl.nodes.iter().skip(1).map(|n| n.peer));
+        all.sort_by_key(|p| dist(p));
+        if all.len() >= 21 {
+            let far = *all.last().unwrap();
+            let near = all[0];
+            let bait = |n: u64| vec![(NetworkAddress::from_record_key(&RecordKey::new(&fix::h32("c09-bait-far", &[n]))), RecordType::Chunk)];
+            for (holder, is_far) in [(far, true), (near, false)] {
+                let d = &mut cl.nodes[0].driver;
+                let list = bait(is_far as u64);
+                cl.rt.block_on(async move { d.verif_on_replicate(NetworkAddress::from_peer(holder), list) });
+                cl.run_tasks();
+                cl.collect();
+                let queued = cl.nodes[0].driver.verif_fetcher_to_be_fetched().len() + cl.nodes[0].driver.verif_fetcher_on_going().len();
+                let fetch_event = cl.pending.iter().any(|a| matches!(a, Action::Event(_, ant_networking::NetworkEvent::KeysToFetchForReplication(_))));
+                if is_far && (queued > 0 || fetch_event) {
+                    ctx.fail("replication_list_from_known_but_distant_peer_acted_upon", format!("{} peers known; the sender is the farthest of them, yet {queued} entries queued / fetch event {fetch_event}", all.len()));
+                }
+                if !is_far {
+                    ctx.label_if(queued > 0 || fetch_event, "list_from_close_peer_acted_upon");
+                }
+                // drop what the bait started so that the rounds below start clean
+                let keys: Vec<_> = cl.nodes[0].driver.verif_fetcher_on_going().into_iter().chain(cl.nodes[0].driver.verif_fetcher_to_be_fetched()).collect();
+                for (k, t, _) in keys {
+                    let d = &mut cl.nodes[0].driver;
+                    cl.rt.block_on(async move {
+                        let _ = d.verif_handle_local_cmd(LocalSwarmCmd::FetchCompleted((k, t)));
+                    });
+                }
+                cl.settle();
+            }
+            ctx.label("far_known_sender");
+        }
+        // restore the cluster topology: the extra peers leave the routing table again
+        for p in &inserted {
+            let d = &mut cl.nodes[0].driver;
+            let p = *p;
+            cl.rt.block_on(async move { d.verif_remove_peer(&p) });
+        }
+        cl.settle();
     }
 
     // ---- rounds of interval replication, generated delivery order ---------------------------------
